@@ -57,6 +57,11 @@ impl Prop for C15 {
         let npw = passwords(&mut Rng::new(1)).len();
         for rep in 0..(if th { 6 } else { 2 }) { for i in 0..npw { v.push(case(&[("kind", "lock".into()), ("pwi", i.to_string()), ("rep", rep.to_string()), ("seed", rng.next().to_string())])); } }
         for i in 0..(if th { 30 } else { 8 }) { v.push(case(&[("kind", "wrongpw".into()), ("pwi", (i % npw).to_string()), ("rel", (*rng.pick(&["bitflip", "append", "drop", "other"])).into()), ("seed", rng.next().to_string())])); }
+        // the TEXT of a locked key: only the 112 characters the lock produced are that key — the same base64 with blanks, line breaks, another
+        // alphabet or without padding is a different string and must be refused (also through the binary)
+        for i in 0..(if th { 4 } else { 1 }) { v.push(case(&[("kind", "text".into()), ("seed", (rng.next() ^ i).to_string())])); }
+        // passwords are byte strings: through --env-pass the variable's bytes are the password, or the run is an error — never a look-alike
+        v.push(case(&[("kind", "env-bytes".into()), ("seed", rng.next().to_string())]));
         // the two HMAC key-normalisation collisions (RFC 2104): a known finding, reproduced on every run
         v.push(case(&[("kind", "wrongpw".into()), ("pwi", "1".into()), ("rel", "nulpad".into()), ("seed", "11".into())]));
         v.push(case(&[("kind", "wrongpw".into()), ("pwi", "5".into()), ("rel", "longhash".into()), ("seed", "12".into())]));
@@ -109,6 +114,54 @@ impl Prop for C15 {
                     if r != "err skdecrypt" { o.oracle_fail = Some(("other-password-rejected".into(), format!("unlock with a different password ({}: {} vs {}) gave {}", rel, hexd(&pw), hexd(&wrong), r))); }
                     else if mr != r { o.disagreement = Some(format!("impl {} model {}", r, mr)); }
                 }
+            }
+            "text" => {
+                let mut rng = Rng::new(get(c, "seed").parse().unwrap_or(0));
+                let key = rng.bytes(32); let salt: [u8; 32] = rng.bytes(32).try_into().unwrap(); let pw = b"text form".to_vec();
+                let sk = kestrel_crypto::PrivateKey::try_from(key.as_slice()).unwrap();
+                let good = Keyring::lock_private_key(&sk, &pw, salt).as_str().to_string();
+                o.nontrivial = Some(format!("text/{}", get(c, "seed")));
+                if rust_unlock(&good, &pw) != format!("ok {}", hex(&key)) { o.oracle_fail = Some(("unlock(lock)=id".into(), "the locked string does not unlock to its key".into())); return o; }
+                let ins = |at: usize, what: &str| { let mut t = good.clone(); t.insert_str(at.min(t.len()), what); t };
+                let mut variants: Vec<(String, String)> = vec![
+                    ("a blank inserted".into(), ins(40, " ")), ("a line break inserted".into(), ins(64, "\n")), ("CR LF inserted".into(), ins(76, "\r\n")), ("wrapped at 64 columns".into(), ins(64, "\n")),
+                    ("a trailing blank".into(), format!("{} ", good)), ("a leading blank".into(), format!(" {}", good)), ("a trailing newline".into(), format!("{}\n", good)), ("a tab inserted".into(), ins(10, "\t")),
+                    ("URL-safe alphabet".into(), good.replace('+', "-").replace('/', "_")), ("padding removed".into(), good.trim_end_matches('=').to_string()), ("one more '='".into(), format!("{}=", good)),
+                    ("doubled".into(), format!("{}{}", good, good)), ("lower-cased".into(), good.to_lowercase())];
+                variants.retain(|(_, t)| *t != good);
+                for (what, t) in &variants {
+                    let r = rust_unlock(t, &pw); let mr = m.ask(&format!("unlock {} {}", hexd(t.as_bytes()), hexd(&pw))); o.validated += 1;
+                    if r.starts_with("ok") { o.oracle_fail = Some(("only-the-locked-string-unlocks".into(), format!("the locked key string with {} ({} characters instead of 112) unlocks with the password", what, t.chars().count()))); o.impl_obs = r; o.model_obs = mr; return o; }
+                    if r.split(' ').next() != mr.split(' ').next() && o.disagreement.is_none() { o.disagreement = Some(format!("{}: impl {} model {}", what, r, mr)); }
+                }
+                // the same through the binary: extract-pub must refuse every variant that can be passed as one argument
+                use crate::cli::*;
+                for (what, t) in variants.iter().filter(|(_, t)| !t.starts_with('-')) {
+                    let w = World { files: vec![], env: vec![("KESTREL_PASSWORD".into(), "text form".into())], stdin: vec![] };
+                    let obs = run_kestrel(&w, &sv(&["key", "extract-pub", t, "--env-pass"])); o.validated += 1;
+                    if obs.exit == Some(0) { o.oracle_fail = Some(("only-the-locked-string-unlocks".into(), format!("`kestrel key extract-pub` accepts the locked key string with {} and prints a public key", what))); o.impl_obs = format!("exit 0: {}", String::from_utf8_lossy(&obs.stdout).trim()); return o; }
+                }
+                o.impl_obs = format!("{} textual variants of a locked key refused by the library function and by the binary", variants.len()); o.model_obs = "same".into();
+            }
+            "env-bytes" => {
+                use crate::cli::*;
+                let mut rng = Rng::new(get(c, "seed").parse().unwrap_or(0));
+                let key = rng.bytes(32); let sk = kestrel_crypto::PrivateKey::try_from(key.as_slice()).unwrap();
+                let pk = sk.to_public().unwrap(); let want = Keyring::encode_public_key(&pk).as_str().to_string();
+                o.nontrivial = Some("env-bytes".into());
+                // keys locked under passwords that LOOK like what a lossy conversion makes of invalid UTF-8
+                for (locked_pw, tries) in [("\u{FFFD}".as_bytes().to_vec(), vec![vec![0xFFu8], vec![0xFE], vec![0xC3], vec![0xFF, 0xFF], vec![0xE2, 0x82]]), ("p\u{FFFD}".as_bytes().to_vec(), vec![vec![b'p', 0xFF], vec![b'p', 0x80]]), ("?".as_bytes().to_vec(), vec![vec![0xFF]])] {
+                    let salt: [u8; 32] = rng.bytes(32).try_into().unwrap();
+                    let locked = Keyring::lock_private_key(&sk, &locked_pw, salt).as_str().to_string();
+                    // control: the real password, given as the variable's bytes, unlocks
+                    let ok = run_kestrel_raw(&World::default(), &[b"key".to_vec(), b"extract-pub".to_vec(), locked.clone().into_bytes(), b"--env-pass".to_vec()], &[("KESTREL_PASSWORD", locked_pw.clone())]); o.validated += 1;
+                    if ok.exit != Some(0) || String::from_utf8_lossy(&ok.stdout).trim().trim_start_matches("PublicKey = ") != want { o.oracle_fail = Some(("right-password-unlocks".into(), format!("extract-pub with the right password ({}) in KESTREL_PASSWORD: exit {:?} {}", hex(&locked_pw), ok.exit, ok.stderr.trim()))); return o; }
+                    for t in tries {
+                        let obs = run_kestrel_raw(&World::default(), &[b"key".to_vec(), b"extract-pub".to_vec(), locked.clone().into_bytes(), b"--env-pass".to_vec()], &[("KESTREL_PASSWORD", t.clone())]); o.validated += 1;
+                        if obs.exit == Some(0) { o.oracle_fail = Some(("other-password-rejected".into(), format!("a key locked under the password bytes {} is unlocked by `kestrel key extract-pub --env-pass` with KESTREL_PASSWORD = bytes {} (a different byte string)", hex(&locked_pw), hex(&t)))); o.impl_obs = "exit 0".into(); return o; }
+                    }
+                }
+                o.impl_obs = "non-UTF-8 environment passwords never unlock keys locked under their look-alikes".into(); o.model_obs = "a password is its bytes".into();
             }
             "resize" => {
                 let mut rng = Rng::new(get(c, "seed").parse().unwrap_or(0));
